@@ -799,14 +799,22 @@ impl EncryptedKeyStorageManager {
                 .truncate(true)
                 .open(&temp_path)
                 .map_err(P2PError::Io)?;
+            #[cfg(feature = "verif-hooks")]
+            crate::verif_hooks::crash_point("keystore:tmp-opened");
 
             file.write_all(&serialized_storage).map_err(P2PError::Io)?;
+            #[cfg(feature = "verif-hooks")]
+            crate::verif_hooks::crash_point("keystore:tmp-written");
 
             file.flush().map_err(P2PError::Io)?;
+            #[cfg(feature = "verif-hooks")]
+            crate::verif_hooks::crash_point("keystore:tmp-flushed");
         }
 
         // Atomic rename
         std::fs::rename(&temp_path, &self.storage_path).map_err(P2PError::Io)?;
+        #[cfg(feature = "verif-hooks")]
+        crate::verif_hooks::crash_point("keystore:renamed");
 
         Ok(())
     }
